@@ -40,6 +40,9 @@ def main():
         rc = subprocess.run([os.path.join(VERIF, 'check'), prop, '--tier', tier], env=env, capture_output=True, text=True, timeout=7200)
         lines = [l for l in rc.stdout.splitlines() if l.startswith(('VIOLATION', 'KNOWN-FINDING', 'ERROR', prop)) or l.startswith('  ')]
         print('check', prop, tier, 'exit', rc.returncode)
+        if rc.returncode not in (0, 1):
+            for l in rc.stderr.splitlines()[-12:]:
+                print('    stderr:', l[:300])
         for l in lines[-8:]:
             print('   ', l[:300])
         return 0
